@@ -30,10 +30,12 @@ package archiver
 // archive$1: the per-URL fetch goroutine.
 
 //@ func ProcessBody
-//@   property C10
+//@   property C10,C02
 //@   sweep idx slice div assert
+//@   attr proved to-eof
 //@   opaque
-//@   modifies models.URL::*
+//@   modifies models.URL::*, eofs
+//@   ensures [to-eof] @C02 result == nil ==> io.nEOF() > old(io.nEOF()) // C02: ProcessBody reads the body to EOF on every branch so the wire capture is complete
 
 //@ pred statsReady() = stats.globalStats != nil && stats.globalStats.URLsCrawled != nil && stats.globalStats.MeanHTTPResponseTime != nil && stats.globalStats.MeanProcessBodyTime != nil && stats.globalStats.MeanWaitOnFeedbackTime != nil && stats.globalStats.HTTPReturnCodes != nil
 
